@@ -29,7 +29,7 @@ impl Prop for C02 {
     fn phases(&self, tier: Tier) -> Vec<Phase> {
         vec![
             Phase::new("well-typed", tier.pick(1200, 40000)).min_cases(tier.pick(300, 10000)).timeouts(60, tier.pick(300, 1500)),
-            Phase::new("mutants", tier.pick(6000, 200000)).min_cases(tier.pick(1500, 50000)).timeouts(60, tier.pick(300, 1500)),
+            Phase::new("mutants", tier.pick(6000, 40000)).min_cases(tier.pick(1500, 8000)).timeouts(60, tier.pick(300, 1500)),
             Phase::new("multi-module", tier.pick(400, 12000)).min_cases(tier.pick(100, 3000)).timeouts(60, tier.pick(300, 1500)),
         ]
     }
